@@ -307,6 +307,11 @@ def replay_witnesses(ctx, prop):
 
 
 def replay_saved(ctx, payload):
+    if 'site' in payload:           # gated rotation scenario
+        ctx.violations = []
+        gated_rotation(ctx, ctx.prop)
+        bad = [v for v in ctx.violations if payload['site'] in v['what']]
+        return {'what': bad[0]['what']} if bad else None
     cls = tuple(payload['class'])
     run = run_point(ctx, payload['prog'], cls, tuple(payload['point']) if payload.get('point') else None, 'replay',
                     tuple(payload['second']) if payload.get('second') else None, payload.get('torn', 0))
@@ -340,6 +345,7 @@ def check_C02(ctx):
                         'SyncBatch is held to the SyncNone contract between its thresholds']
     tlc_mc(ctx, 'MC_Store', 'MC_Store_crash.cfg' if ctx.quick() else 'MC_Store_crash_thorough.cfg', timeout=280 if ctx.quick() else 3000)
     replay_witnesses(ctx, 'C02')
+    gated_rotation(ctx, 'C02')
     progs = programs(ctx, 8 if ctx.quick() else 60)
     ctx.samples = [[{'a': s['a'], 'op': s['op']} for s in progs[0]]]
     runs = enumerate_crashes(ctx, 'C02', progs[:(8 if ctx.quick() else 60)], CRASH_CLASSES, cap=6 if ctx.quick() else 10,
